@@ -967,7 +967,42 @@ pub fn main(args: &Args) -> i32 {
             report.violation(x);
         }
     });
-    report.assume("the reference message layout in refmsg.rs (written from the D-Bus specification) is correct");
+    // ---- audit of the reference model against libdbus (never decides the property)
+    match rm::LibDbus::load() {
+        None => report.note("libdbus could not be loaded: the reference-model audit was skipped"),
+        Some(lib) => {
+            let (mut audited, mut masked) = (0u64, 0u64);
+            for c in cases.iter().filter(|c| c.route == 0 && !c.typed && c.serial.is_some()) {
+                if c.reply_serial_removed {
+                    masked += 1; // libdbus insists on REPLY_SERIAL in replies; the property does not
+                    continue;
+                }
+                let body = &bs[c.body];
+                let spec = rm::MsgSpec {
+                    be: c.be,
+                    mtype: c.mtype,
+                    flags: c.flags,
+                    version: 1,
+                    serial: c.serial.unwrap(),
+                    fields: c.expected_fields(body),
+                    body: body.args.clone(),
+                    auto_body_fields: false,
+                };
+                match rm::audit_with_libdbus(&lib, &spec) {
+                    Ok(true) => audited += 1,
+                    Ok(false) => masked += 1,
+                    Err(e) => vcommon::machinery_failure(&format!("C11: reference model audit failed: {e}")),
+                }
+            }
+            report.set(
+                "reference_model_audit",
+                json!({"against": "libdbus dbus_message_demarshal + header getters + demarshal_bytes_needed",
+                       "messages_agreed": audited, "masked": masked,
+                       "mask": "messages carrying fds (libdbus needs them on a socket); replies without REPLY_SERIAL (libdbus requires the field)"}),
+            );
+        }
+    }
+    report.assume("the reference message layout in refmsg.rs (written from the D-Bus specification) is correct; audited against libdbus on the whole logical case set, see reference_model_audit");
     report.assume("fd identity is (st_dev, st_ino) of anonymous memfds");
     report.assume("a body that is one struct argument is read back by the library as the struct's members; the wire bytes are identical, so this is accepted as the same value");
     report.note("both byte orders are built by the library itself (Builder::endian; replies inherit it from the call)");
